@@ -4,7 +4,9 @@
 From V Require Import Base SignOut SignOut_proofs Validators ProxyCore ProxyCore_proofs ProxyWorld ProxyWorld_proofs
   SignOutCompose_proofs CorrBase Corr_C19 Corr_C19_proofs.
 
-(* Visiting the proxy's sign-out URL: 302, the proxy session cookie is cleared, the Location is the
+(* Visiting the proxy's sign-out URL — for every request cookie, whatever its deadlines: 302, the proxy
+   session cookie is cleared and NO Set-Cookie carries a session (the handler never authenticates: no
+   back-channel call, nothing re-saved), the Location is the
    provider's /sign_out with exactly redirect_uri, sig, ts; redirect_uri is scheme://Host/ for the
    request's own Host (scheme from cookie_secure) — or, when the client sent an absolute-form request
    target, the scheme-relative //Host/ (the code writes a scheme only if req.URL.Scheme is empty);
@@ -12,7 +14,7 @@ From V Require Import Base SignOut SignOut_proofs Validators ProxyCore ProxyCore
 Theorem C19_proxy_signout : forall (mac : str -> str -> str) base secret secure origin_form host now,
   let r := proxy_sign_out mac base secret secure origin_form host now in
   let uri := url_string (proxy_scheme secure origin_form) host in
-  p_status r = 302%Z /\ p_clears r = true /\ l_base (p_loc r) = base /\
+  p_status r = 302%Z /\ p_clears r = true /\ p_sets_live r = false /\ p_asks r = false /\ l_base (p_loc r) = base /\
   l_params (p_loc r) = [(k_redirect_uri, uri); (k_sig, b64_encode (mac secret (uri ++ dec now))); (k_ts, dec now)] /\
   (host_plain host = true -> origin_form = true ->
      uri = (if secure then s_https else s_http) ++ SignOut_proofs.colon_slash_slash ++ host ++ [47]) /\
@@ -36,6 +38,12 @@ Print Assumptions C19_signature_accepted.
 Theorem C19_parse_encode_query : forall ps, Forall pair_bytes_ok ps -> parse_query (encode_query ps) = Some ps.
 Proof. exact parse_encode_query. Qed.
 Print Assumptions C19_parse_encode_query.
+
+(* The handlers of the production chain see the pairs that parse (the logging handler drops ParseForm's
+   error); for what the proxy writes that is again exactly the parameter list. *)
+Theorem C19_form_of_encode_query : forall ps, Forall pair_bytes_ok ps -> form_of_query (encode_query ps) = ps.
+Proof. exact form_of_encode_query. Qed.
+Print Assumptions C19_form_of_encode_query.
 
 Theorem C19_signature_accepted_on_the_wire : forall (mac : str -> str -> str) base psecret asecret secure origin_form host now now',
   mac_wf mac -> asecret = psecret -> psecret <> [] -> bytes_ok host -> int64 now -> (now' - now <= 300)%Z ->
@@ -254,7 +262,7 @@ Theorem C19_proxy_monitor_accepts_model : forall (mac : str -> str -> str) base 
   let r := proxy_sign_out mac base secret secure origin_form host now in
   proxy_holds mac {| po_base := base; po_secret := secret; po_secure := secure; po_origin_form := origin_form;
                      po_host := host; po_clock := clock; po_ts := now; po_status := p_status r;
-                     po_cleared := p_clears r; po_obs_base := l_base (p_loc r);
+                     po_cleared := p_clears r; po_live := p_sets_live r; po_calls := []; po_obs_base := l_base (p_loc r);
                      po_query := encode_query (l_params (p_loc r)); po_params := l_params (p_loc r) |} = true.
 Proof. exact proxy_monitor_accepts_model. Qed.
 Print Assumptions C19_proxy_monitor_accepts_model.
